@@ -41,7 +41,7 @@ ASSUMPTIONS = [
     "simulated part: preemption only at operations of the shimmed threading/Popen/psutil objects and PopenFuture.result (the points where the real code can block or observe shared state); the cancellation pool of shutdown(wait=False) runs its tasks in the caller",
     "real part: jobs that spawn children are cancelled only after the shell has reported that its children exist (a shell killed while forking can orphan a child: an OS-level race no tree kill closes); a process still alive 10 s after shutdown(wait=False) returned is counted as kept running (cancellation itself is synchronous and takes < 1 s); sleeps are 30 s so that survivors are unambiguous",
 ]
-WATCHDOG_S = {"quick": 900, "thorough": 7200}
+WATCHDOG_S = {"quick": 2400, "thorough": 10800}
 
 MANIFEST = {
     "technique": "controlled-concurrency testing: generated schedules (thread steps, process exits, time-limit expiries) drive halmos.processes on shimmed threading/Popen/psutil with a baton scheduler, invariants over the history as oracle; plus randomized runs with real subprocesses and shutdown from another thread",
